@@ -326,26 +326,62 @@ def _nested_any(join_k, v0, k, other: int, built: bool, name: str, prop: str = "
             w.close()
 
 
-def start_vs_start_anywhere(join: int, v0: int, k: int) -> bool:
+def start_vs_start_anywhere_and(v0: int, k: int) -> bool:
     """
     pre: 0 <= v0 <= 1000 and 1 <= k <= 60
     post: _
     """
-    return _nested_any(join, v0, k, 0, False, "start_vs_start_anywhere")
+    return _nested_any(0, v0, k, 0, False, "start_vs_start_anywhere_and")
 
 
-def start_vs_start_anywhere_built(join: int, v0: int, k: int) -> bool:
+def start_vs_start_anywhere_firstof(v0: int, k: int) -> bool:
     """
     pre: 0 <= v0 <= 1000 and 1 <= k <= 60
     post: _
     """
-    return _nested_any(join, v0, k, 0, True, "start_vs_start_anywhere_built")
+    return _nested_any(1, v0, k, 0, False, "start_vs_start_anywhere_firstof")
+
+
+def start_vs_start_anywhere_quorum(v0: int, k: int) -> bool:
+    """
+    pre: 0 <= v0 <= 1000 and 1 <= k <= 60
+    post: _
+    """
+    return _nested_any(2, v0, k, 0, False, "start_vs_start_anywhere_quorum")
+
+
+def start_vs_start_anywhere_built_and(v0: int, k: int) -> bool:
+    """
+    pre: 0 <= v0 <= 1000 and 1 <= k <= 60
+    post: _
+    """
+    return _nested_any(0, v0, k, 0, True, "start_vs_start_anywhere_built_and")
+
+
+def start_vs_start_anywhere_built_firstof(v0: int, k: int) -> bool:
+    """
+    pre: 0 <= v0 <= 1000 and 1 <= k <= 60
+    post: _
+    """
+    return _nested_any(1, v0, k, 0, True, "start_vs_start_anywhere_built_firstof")
+
+
+def start_vs_start_anywhere_built_quorum(v0: int, k: int) -> bool:
+    """
+    pre: 0 <= v0 <= 1000 and 1 <= k <= 60
+    post: _
+    """
+    return _nested_any(2, v0, k, 0, True, "start_vs_start_anywhere_built_quorum")
 
 
 PLAN = [
     ("claim_two", "quick", 280),
-    ("start_vs_start_anywhere", "quick", 280),
-    ("start_vs_start_anywhere_built", "quick", 280),
+    ("start_vs_start_anywhere_and", "quick", 280),
+    ("start_vs_start_anywhere_firstof", "quick", 280),
+    ("start_vs_start_anywhere_quorum", "quick", 280),
+    ("start_vs_start_anywhere_built_and", "quick", 280),
+    ("start_vs_start_anywhere_built_firstof", "quick", 280),
+    ("start_vs_start_anywhere_built_quorum", "quick", 280),
     ("start_alone", "quick", 120),
     ("start_vs_start", "quick", 200),
     ("start_vs_upstream_completion", "quick", 200),
